@@ -2,6 +2,7 @@ package main
 
 import (
 	"fmt"
+	"go/types"
 	"go/token"
 	"strings"
 
@@ -129,6 +130,7 @@ func runC06(c *Ctx) {
 	for _, fn := range []*ssa.Function{c.a.MemWrite, c.a.BigFlush} {
 		headerLastRule(c, "C06.headerlast", fn)
 	}
+	txEndRule(c, "C06.txend", openReach(c))
 	// who-may-write-the-header: the schema / row counter keys are written only by the flush functions (and helpers
 	// reachable from them). A header written anywhere else (a constructor, an "initialise the file" step) is committed
 	// before the bitmaps exist.
@@ -456,6 +458,79 @@ func openValidateRule(c *Ctx, rule string) {
 		c.r.undecided(rule, "bucket lookup", "the open function does not look up the data bucket", c.w.pos(c.a.OpenFromDB.Pos()))
 	}
 	c.r.Stats["open_decodes_checked"] = nDecode
+	// order: options run only after the file has been validated. The options' own transactions (preloading) rely on the
+	// data bucket being there — that is why their Bucket() results need no nil check of their own (see above).
+	optT := c.w.namedType(pkgRoot, "IndexOption")
+	of := c.a.OpenFromDB
+	isBucket := func(j ssa.Instruction) bool {
+		call, ok := j.(*ssa.Call)
+		return ok && calleeName(&call.Call) == "(*go.etcd.io/bbolt.Tx).Bucket"
+	}
+	isValidation := func(i ssa.Instruction) bool {
+		call, ok := i.(*ssa.Call)
+		if !ok {
+			return false
+		}
+		if h := calleeFunc(&call.Call); h != nil && c.w.inModule(h) && h != of {
+			hit := false
+			instrsOf(c.scope(h, 2), func(j ssa.Instruction) {
+				if isBucket(j) {
+					hit = true
+				}
+			})
+			if hit {
+				return true
+			}
+		}
+		for _, a := range call.Call.Args {
+			var g *ssa.Function
+			switch v := a.(type) {
+			case *ssa.MakeClosure:
+				g, _ = v.Fn.(*ssa.Function)
+			case *ssa.Function:
+				g = v
+			}
+			if g == nil {
+				continue
+			}
+			for _, f := range c.scope(g, 1) {
+				if c.fc.mayContain(f, isBucket, 1) {
+					return true
+				}
+			}
+			// a bound method value: look through the synthetic wrapper
+			if g.Synthetic != "" {
+				hit := false
+				allInstrs(g, func(j ssa.Instruction) {
+					if cc := callCommon(j); cc != nil {
+						if h := calleeFunc(cc); h != nil && c.fc.mayContain(h, isBucket, 2) {
+							hit = true
+						}
+					}
+				})
+				if hit {
+					return true
+				}
+			}
+		}
+		return false
+	}
+	nOpt := 0
+	if optT != nil {
+		allInstrs(of, func(i ssa.Instruction) {
+			call, ok := i.(*ssa.Call)
+			if !ok || call.Call.IsInvoke() || calleeFunc(&call.Call) != nil || !types.Identical(call.Call.Value.Type(), optT) {
+				return
+			}
+			nOpt++
+			key := fmt.Sprintf("%s: option call#%d after validation", safeFname(of), nOpt)
+			if p := c.fc.pathAvoiding(of, nil, func(x ssa.Instruction) bool { return x == i }, isValidation); p != nil {
+				c.r.bad(rule, key, "an index option can run before the file has been validated: options that read the file (preloading) dereference the data bucket without a check of their own, so a bbolt file without that bucket makes opening panic instead of failing", []string{c.w.ipos(i)}, c.fc.witnessStrings(p)...)
+			} else {
+				c.r.ok(rule, key, "options run after the validating transaction", c.w.ipos(i))
+			}
+		})
+	}
 }
 
 func runC15(c *Ctx) {
@@ -503,8 +578,8 @@ func releaseRule(c *Ctx, rule string) {
 		if cc == nil {
 			return false
 		}
-		if _, isDefer := i.(*ssa.Defer); isDefer {
-			return false
+		if d, isDefer := i.(*ssa.Defer); isDefer {
+			return closesOnError(c, fn, d, db)
 		}
 		switch calleeName(cc) {
 		case "(*go.etcd.io/bbolt.DB).Close":
@@ -699,13 +774,73 @@ func txEndRule(c *Ctx, rule string, re *Reach) {
 					return false
 				}
 				for _, cm := range trueCmps(fact{iff.Cond, pred.Succs[0] == succ}) {
-					if cm.Op == token.NEQ && ((cm.X == errv && isNilConst(cm.Y)) || (cm.Y == errv && isNilConst(cm.X))) {
+					if cm.Op == token.NEQ && ((lastStoredIs(cm.X, errv) && isNilConst(cm.Y)) || (lastStoredIs(cm.Y, errv) && isNilConst(cm.X))) {
 						return true
 					}
 				}
 				return false
 			}
 			isRet := func(x ssa.Instruction) bool { _, r := x.(*ssa.Return); return r }
+			// DB.Close must not run while the transaction is open (it waits for it: self-deadlock)
+			isDBClose := func(i ssa.Instruction) bool {
+				cc := callCommon(i)
+				return cc != nil && calleeName(cc) == "(*go.etcd.io/bbolt.DB).Close"
+			}
+			directEnd := func(i ssa.Instruction) bool {
+				if _, isDefer := i.(*ssa.Defer); isDefer {
+					return false
+				}
+				return c.fc.ipAvoid(isEnd)(i)
+			}
+			directClose := func(i ssa.Instruction) bool {
+				if _, isDefer := i.(*ssa.Defer); isDefer {
+					return false
+				}
+				if _, isGo := i.(*ssa.Go); isGo {
+					return false
+				}
+				return c.fc.ipTarget(isDBClose)(i)
+			}
+			if p := c.fc.pathFrom(fn, call, directClose, directEnd, beginFailed); p != nil {
+				c.r.bad(rule, key+": close while open", "the database can be closed while the transaction begun here is still open (its Rollback is deferred or comes later): DB.Close waits for open transactions, so the failing open deadlocks instead of returning its error", []string{c.w.ipos(p[len(p)-1])}, c.fc.witnessStrings(p)...)
+			} else {
+				// deferred handlers run last-in-first-out: a deferred Close registered after the deferred end of the
+				// transaction runs before it
+				var dEnds, dCloses []*ssa.Defer
+				allInstrs(fn, func(i ssa.Instruction) {
+					d, ok := i.(*ssa.Defer)
+					if !ok {
+						return
+					}
+					if isEnd(d) || func() bool { h := calleeFunc(&d.Call); return h != nil && c.w.inModule(h) && c.fc.mustPass(h, isEnd, 1) }() {
+						dEnds = append(dEnds, d)
+					}
+					if isDBClose(d) || func() bool { h := calleeFunc(&d.Call); return h != nil && c.w.inModule(h) && c.fc.mayContain(h, isDBClose, 1) }() {
+						dCloses = append(dCloses, d)
+					}
+				})
+				badOrder := false
+				for _, dc := range dCloses {
+					// the transaction is still open when dc runs unless it is ended directly on every path to the exit or by
+					// a deferred end registered after dc
+					endedLater := false
+					for _, de := range dEnds {
+						if instrReaches(dc, de) && dc != de {
+							endedLater = true
+						}
+					}
+					if endedLater {
+						continue
+					}
+					if p := c.fc.pathFrom(fn, call, func(x ssa.Instruction) bool { _, r := x.(*ssa.RunDefers); return r }, directEnd, beginFailed); p != nil && instrReaches(call, dc) {
+						badOrder = true
+						c.r.bad(rule, key+": deferred close before deferred end", "a deferred handler that closes the database is registered after the deferred end of the transaction begun here, so it runs first (defers run last-in-first-out): DB.Close waits for the open transaction and the failing open deadlocks", []string{c.w.ipos(dc)}, c.fc.witnessStrings(p)...)
+					}
+				}
+				if !badOrder {
+					c.r.ok(rule, key+": close while open", "the database is never closed while this transaction is open", c.w.ipos(call))
+				}
+			}
 			if p := c.fc.pathFrom(fn, call, isRet, c.fc.ipAvoid(isEnd), beginFailed); p != nil {
 				c.r.bad(rule, key, "a transaction begun while opening an index is not ended on some path to a return: DB.Close waits for open transactions, so the failing open blocks instead of returning its error and never releases the file",
 					[]string{c.w.ipos(p[len(p)-1])}, c.fc.witnessStrings(p)...)
@@ -718,4 +853,87 @@ func txEndRule(c *Ctx, rule string, re *Reach) {
 		c.r.ok(rule, "<none>", "the open path begins no explicit transaction (only managed DB.View)")
 	}
 	c.r.Stats["explicit_begins_on_open_path"] = n
+}
+
+// lastStoredIs: v is target itself, or a load of a local cell (a named result, say) whose most recent store in the
+// same block stored target.
+func lastStoredIs(v, target ssa.Value) bool {
+	if v == target || target == nil {
+		return v == target
+	}
+	ld, ok := v.(*ssa.UnOp)
+	if !ok || ld.Op != token.MUL {
+		return false
+	}
+	cell, ok := ld.X.(*ssa.Alloc)
+	if !ok {
+		return false
+	}
+	b := ld.Block()
+	for j := pointOf(ld).i - 1; j >= 0; j-- {
+		if st, ok := b.Instrs[j].(*ssa.Store); ok && st.Addr == ssa.Value(cell) {
+			return st.Val == target
+		}
+	}
+	return false
+}
+
+// closesOnError: d defers a function literal that closes db on every one of its paths on which fn's (named) error
+// result is non-nil: `defer func() { if err != nil { db.Close() } }()`.
+func closesOnError(c *Ctx, fn *ssa.Function, d *ssa.Defer, db ssa.Value) bool {
+	mc, ok := d.Call.Value.(*ssa.MakeClosure)
+	if !ok {
+		return false
+	}
+	h, ok := mc.Fn.(*ssa.Function)
+	if !ok || h.Blocks == nil {
+		return false
+	}
+	// fn's error result cell
+	var errCell ssa.Value
+	if fn.Recover != nil {
+		for _, ins := range fn.Recover.Instrs {
+			if ret, ok := ins.(*ssa.Return); ok {
+				for _, rv := range ret.Results {
+					if ld, ok := rv.(*ssa.UnOp); ok && ld.Op == token.MUL && isErrorType(rv.Type()) {
+						errCell = ld.X
+					}
+				}
+			}
+		}
+	}
+	if errCell == nil {
+		return false
+	}
+	isErrLoad := func(v ssa.Value) bool {
+		ld, ok := v.(*ssa.UnOp)
+		if !ok || ld.Op != token.MUL {
+			return false
+		}
+		return peelCell(ld.X) == errCell
+	}
+	isClose := func(i ssa.Instruction) bool {
+		cc := callCommon(i)
+		if cc == nil || calleeName(cc) != "(*go.etcd.io/bbolt.DB).Close" {
+			return false
+		}
+		if _, isDefer := i.(*ssa.Defer); isDefer {
+			return false
+		}
+		return peel(cc.Args[0]) == db
+	}
+	errNil := func(pred, succ *ssa.BasicBlock) bool {
+		iff, ok := pred.Instrs[len(pred.Instrs)-1].(*ssa.If)
+		if !ok || len(pred.Succs) != 2 {
+			return false
+		}
+		for _, cm := range trueCmps(fact{iff.Cond, pred.Succs[0] == succ}) {
+			if cm.Op == token.EQL && cm.Y != nil && ((isErrLoad(cm.X) && isNilConst(cm.Y)) || (isErrLoad(cm.Y) && isNilConst(cm.X))) {
+				return true
+			}
+		}
+		return false
+	}
+	isRet := func(i ssa.Instruction) bool { _, ok := i.(*ssa.Return); return ok }
+	return c.fc.pathAvoidingEdges(h, isRet, isClose, errNil) == nil
 }
